@@ -141,6 +141,11 @@ func syntaxMutants(sd seedDoc) []Body {
 		mk(insertAt(doc, p, "<<"), "lt-in-text", "xml-syntax:lt")
 		mk(insertAt(doc, p, "&#xZZ;"), "bad-char-ref", "xml-syntax:entity")
 		mk(insertAt(doc, p, "AT&T "), "bare-ampersand", "xml-syntax:entity")
+		// named entities that HTML knows and XML does not (a decoder set up
+		// with an HTML entity table reads them)
+		for _, ent := range []string{"&nbsp;", "caf&eacute;", "&copy; 2024", "&Auml;&ouml;", "&hellip;"} {
+			mk(insertAt(doc, p, ent), "html-entity", "xml-syntax:entity")
+		}
 		mk(insertAt(doc, p, "<unclosed>"), "unclosed-element", "xml-syntax:end-tag")
 		mk(insertAt(doc, p, "</D:stray>"), "stray-end-tag", "xml-syntax:end-tag")
 	}
@@ -148,6 +153,7 @@ func syntaxMutants(sd seedDoc) []Body {
 	rs, _ := rootSpan(doc)
 	if k := strings.Index(s[rs:], "=\""); k >= 0 {
 		mk(insertAt(doc, rs+k+2, "&nosuch;"), "undefined-entity-in-attr", "xml-syntax:entity")
+		mk(insertAt(doc, rs+k+2, "&nbsp;"), "html-entity-in-attr", "xml-syntax:entity")
 		mk(insertAt(doc, rs+k+2, "<"), "lt-in-attr", "xml-syntax:lt")
 	}
 	return l
@@ -851,6 +857,39 @@ func textMutants(sd seedDoc) []Body {
 		Body{Data: []byte(strings.Replace(sd.Text, "VERSION", "VERSION"+strings.Repeat("X", 70000), 1)), Doc: fam, Mut: "long-line"},
 		Body{Data: []byte(strings.Replace(sd.Text, "\r\nEND:", "\r\nend:", -1)), Doc: fam, Mut: "end-lower"},
 	)
+	// objects that parse and hold nothing, or not what a calendar / address
+	// book stores (unlabelled: the statement's list names unparseable bodies)
+	if fam == "ical" {
+		tz := "BEGIN:VTIMEZONE\r\nTZID:Europe/Paris\r\nBEGIN:STANDARD\r\nDTSTART:19701025T030000\r\nTZOFFSETFROM:+0200\r\nTZOFFSETTO:+0100\r\nEND:STANDARD\r\nEND:VTIMEZONE\r\n"
+		head := "BEGIN:VCALENDAR\r\nVERSION:2.0\r\nPRODID:-//verif//c13//EN\r\n"
+		for _, t := range []string{
+			"BEGIN:VCALENDAR\r\nEND:VCALENDAR\r\n",
+			head + "END:VCALENDAR\r\n",
+			"BEGIN:VCALENDAR\r\nVERSION:2.0\r\nEND:VCALENDAR\r\n",
+			head + tz + "END:VCALENDAR\r\n",
+			head + "BEGIN:VJOURNAL\r\nUID:j1\r\nDTSTAMP:20240101T000000Z\r\nEND:VJOURNAL\r\n" + "END:VCALENDAR\r\n",
+			head + "BEGIN:VFREEBUSY\r\nUID:f1\r\nDTSTAMP:20240101T000000Z\r\nEND:VFREEBUSY\r\n" + "END:VCALENDAR\r\n",
+			head + "BEGIN:X-CUSTOM\r\nX-A:1\r\nEND:X-CUSTOM\r\n" + "END:VCALENDAR\r\n",
+			head + "BEGIN:VEVENT\r\nEND:VEVENT\r\n" + "END:VCALENDAR\r\n",
+			head + "BEGIN:VEVENT\r\nUID:e1\r\nDTSTAMP:20240101T000000Z\r\nDTSTART:20240101T000000Z\r\nBEGIN:VEVENT\r\nUID:e2\r\nEND:VEVENT\r\nEND:VEVENT\r\n" + "END:VCALENDAR\r\n",
+			head + "METHOD:REQUEST\r\n" + "END:VCALENDAR\r\n",
+			"BEGIN:VEVENT\r\nUID:bare\r\nDTSTAMP:20240101T000000Z\r\nEND:VEVENT\r\n",
+		} {
+			l = append(l, Body{Data: []byte(t), Doc: fam, Mut: "hollow-object"})
+		}
+	} else {
+		for _, t := range []string{
+			"BEGIN:VCARD\r\nEND:VCARD\r\n",
+			"BEGIN:VCARD\r\nVERSION:3.0\r\nEND:VCARD\r\n",
+			"BEGIN:VCARD\r\nVERSION:4.0\r\nEND:VCARD\r\n",
+			"BEGIN:VCARD\r\nFN:No Version\r\nEND:VCARD\r\n",
+			"BEGIN:VCARD\r\nVERSION:9.9\r\nFN:x\r\nEND:VCARD\r\n",
+			"BEGIN:VCARD\r\nVERSION:3.0\r\nFN:a\r\nEND:VCARD\r\nBEGIN:VCARD\r\nVERSION:3.0\r\nFN:b\r\nEND:VCARD\r\n",
+			"BEGIN:VCALENDAR\r\nVERSION:2.0\r\nEND:VCALENDAR\r\n",
+		} {
+			l = append(l, Body{Data: []byte(t), Doc: fam, Mut: "hollow-object"})
+		}
+	}
 	return l
 }
 
